@@ -266,7 +266,15 @@ func (w *World) checkTags(p *Prop, F *Field, path string) []Issue {
 			out = append(out, Issue{Rule: "A-TAG", Construct: "configured tag missing", Msg: fmt.Sprintf("%s: field %s has no %s tag", path, F.Name, k)})
 			continue
 		}
-		name, opts, _ := strings.Cut(v, ",")
+		if v == "-" {
+			// encoding/json, yaml.v3 and mapstructure all read a tag that is exactly "-" as "skip this field"
+			out = append(out, Issue{Rule: "A-TAG", Construct: "tag is the skip marker", Msg: fmt.Sprintf("%s: the %s tag of field %s is exactly \"-\": the decoder skips the field, so the property's value is never bound (and never re-encoded)", path, k, F.Name)})
+			continue
+		}
+		name, opts, hasComma := strings.Cut(v, ",")
+		if hasComma && opts == "" && k != "json" {
+			out = append(out, Issue{Rule: "A-TAG", Construct: "tag ends in an empty option", Msg: fmt.Sprintf("%s: %s tag %q ends in a comma: only encoding/json accepts an empty option (yaml.v3 refuses the type with \"unsupported flag\")", path, k, v)})
+		}
 		if name != want {
 			out = append(out, Issue{Rule: "A-TAG", Construct: "tag does not carry the raw property name", Msg: fmt.Sprintf("%s: %s tag is %q, expected exactly the property name", path, k, v)})
 		}
